@@ -156,9 +156,9 @@ def conv_rows_for(s):
     rows = []
     try:
         n = int(s)
-        if abs(n) >= 2 ** 31:
-            raise MachineryError('integer %r does not fit the specification; choose shorter digit strings' % s)
-        rows.append({'k': 'int', 's': list(s), 'n': n, 'fin': True, 'v': list(str(n))})
+        # TLC integers are 32-bit: n is only compared with the (small) min/max arguments, so it is clipped;
+        # the value itself travels as the characters of str(n)
+        rows.append({'k': 'int', 's': list(s), 'n': max(-2 ** 31 + 1, min(2 ** 31 - 1, n)), 'fin': True, 'v': list(str(n))})
     except ValueError:
         pass
     try:
@@ -248,10 +248,12 @@ class Pair:
         self.ids = {}                 # template text -> segment ids
         self.rejected = []            # templates (ids) the router under test rejected
         self.after_reject = False
+        self.log = []                 # every public call made, for the replay file
 
     def add(self, tp, r, c):
         text = self.u.template(tp)
         self.ids[text] = list(tp)
+        self.log.append(['add', list(tp), r, bool(c)])
         res = Res(r)
         out, x = _add(self.main, text, res, c)
         if out == 'ok':
@@ -283,6 +285,7 @@ class Pair:
 
     def find(self, segs):
         path = '/' + '/'.join(segs)
+        self.log.append(['find', list(segs)])
         out, res, tmpl, params, x = self._find(self.main, path)
         sout, sres, stmpl, sparams, sx = self._find(self.shadow, path)
         return {'op': 'find', 't': [], 'r': 0, 'c': False, 'out': out, 'sout': sout, 'p': [list(s) for s in segs],
@@ -333,6 +336,14 @@ def shadow_view(ev):
 MISS = {'out': 'miss', 'res': 0, 'tmpl': [], 'params': []}
 
 
+def replay_info(pair, upto=None):
+    """what `./check C01 --replay` needs: the calls made and the template segments they use"""
+    ops = pair.log if upto is None else pair.log[:upto]
+    used = sorted({sid for op in ops if op[0] == 'add' for sid in op[1]})
+    return {'ops': [[op[0], pair.u.template(op[1])] + op[1:] if op[0] == 'add' else op for op in ops],
+            'segs': {str(sid): pair.u.ts[sid - 1] for sid in used}}
+
+
 class Replayer:
     """Leg A: performs specification behaviours on a Pair and compares every outcome with the specification's."""
 
@@ -342,6 +353,7 @@ class Replayer:
 
     def report(self, clause, pair, case, what):
         sig = f1_signature(pair.rejected, self.u) if clause == 'P:reject-noop' else None
+        case = dict(case, **replay_info(pair))
         if clause.startswith('D:'):
             self.ctx.detail(clause, case, what)
         else:
@@ -437,3 +449,352 @@ def load_tables(rjson):
         tables[table_key(a['t'] for a in st['acc'])] = {
             'outs': {tuple(o['t']): o['out'] for o in st['outs']}, 'hits': hits, 'racc': [a['r'] for a in st['acc']]}
     return tables
+
+
+def sim_universe():
+    """the larger universe of the simulated histories (leg A): converters with arguments, float, a converter
+    inside a multi-field segment, three multi-field shapes that can match the same representative"""
+    path = conv('path')
+    segs = [seg('a'), seg('b'), seg(), seg('a.b'), seg(fld('x')), seg(fld('y')), seg(fld('x', INT)),
+            seg(fld('z', conv('int', nd=2))), seg(fld('w', conv('int', lo=3, hi=50))), seg(fld('f', conv('float'))),
+            seg(fld('p', path)), seg(fld('m'), '.', fld('n')), seg(fld('k'), '-', fld('n')),
+            seg(fld('m', INT), '.', fld('x')), seg('v', fld('q')), seg(fld('m'), '.', fld('p', path)),
+            seg(fld('g', conv('nope'))), seg(fld('9x')), seg('a b')]
+    ps = ['a', 'b', '', 'a.b', '7', '42', '007', ' 7', 'q', 'u.v', '1-2.3', '7.q', '1.5', 'va', 'inf']
+    return Universe(segs), ps
+
+
+# ------------------------------------------------------------------------------------------------
+# leg B: random route tables beyond the bound
+
+LITS = ['a', 'b', 'ab', 'items', 'v1', 'x.y', 'a-b', '7', 'a+b', '(z)', 'u.v', '']
+UUID1 = '12345678-1234-5678-1234-567812345678'
+DT1 = '2020-01-02T03:04:05Z'
+CONVS = [(conv('int'), 6), (conv('int', nd=2), 2), (conv('int', lo=3, hi=50), 2), (conv('float'), 3),
+         (conv('float', fin=False), 1), (conv('uuid'), 2), (conv('dt'), 1)]
+REPS_BY_CONV = {
+    '': ['q', 'u', ''],
+    'int': ['7', '42', '007', '+5', ' 7', '5_0', 'x7', '2', '51', '٥'],
+    'float': ['1.5', '1e3', 'inf', 'nan', '-0', 'x'],
+    'uuid': [UUID1, UUID1.replace('-', ''), 'not-a-uuid'],
+    'dt': [DT1, '2020-01-02'],
+    'path': ['q', ''],
+}
+FIELD_FILL = ['u', 'v', '1', '42', 'u.v', 'a-b', 'x']
+
+
+def _weighted(rng, pairs):
+    tot = sum(w for _, w in pairs)
+    x = rng.random() * tot
+    for v, w in pairs:
+        x -= w
+        if x < 0:
+            return v
+    return pairs[-1][0]
+
+
+def random_segment(rng, names):
+    """one template segment from the grammar of the property: literal, simple, converter-carrying,
+    multi-field, path-consuming (+ a few invalid ones)"""
+    t = rng.random()
+    nm = lambda: rng.choice(names)  # noqa
+    if t < 0.38:
+        return seg(rng.choice(LITS))
+    if t < 0.56:
+        return seg(fld(nm()))
+    if t < 0.70:
+        return seg(fld(nm(), _weighted(rng, CONVS)))
+    if t < 0.78:
+        return seg(fld(nm(), conv('path')))
+    if t < 0.97:
+        a, b = nm(), nm()
+        shape = rng.randrange(10)
+        c1 = _weighted(rng, CONVS) if rng.random() < 0.25 else None
+        c2 = _weighted(rng, CONVS) if rng.random() < 0.25 else None
+        if shape == 0:
+            return seg(fld(a, c1), '.', fld(b, c2))
+        if shape == 1:
+            return seg(fld(a, c1), '-', fld(b, c2))
+        if shape == 2:
+            return seg('v', fld(a, c1))
+        if shape == 3:
+            return seg(fld(a, c1), 'v', fld(b, c2))
+        if shape == 4:
+            return seg('x', fld(a), 'y')
+        if shape == 5:
+            return seg(fld(a), fld(b))
+        if shape == 6:
+            return seg(fld(a), '.', fld(b), '.', fld(rng.choice(names)))
+        if shape == 7:
+            return seg(fld(a), '+', fld(b, c2))
+        if shape == 8:
+            return seg(fld(a), '.', fld(b, conv('path')))
+        return seg(fld(a, c1), '(', fld(b), ')')
+    bad = rng.randrange(3)
+    if bad == 0:
+        return seg(fld(rng.choice(['9x', 'a b', 'class'])))
+    if bad == 1:
+        return seg(fld(nm(), conv('nope')))
+    return seg(rng.choice(['a b', 'x\ty']))
+
+
+def seg_reps(s, rng):
+    """path segments that are interesting for template segment s (accepted and vetoed ones)"""
+    k = seg_kind(s)
+    if k == 'lit':
+        return [render_seg(s)]
+    if k == 'var':
+        return REPS_BY_CONV.get(s['items'][0]['c']['k'], ['q'])
+    out = []
+    for _ in range(3):
+        txt = ''
+        for it in s['items']:
+            if it['t'] == 'lit':
+                txt += ''.join(it['v'])
+            else:
+                pool = REPS_BY_CONV.get(it['c']['k'], FIELD_FILL)[:4] if it['c']['k'] and rng.random() < 0.7 else FIELD_FILL
+                txt += rng.choice(pool)
+        out.append(txt)
+    return out
+
+
+def random_trace(rng, u, nadds, nfinds, maxdepth=4):
+    """Drives a Pair with a random table; returns (events, info)."""
+    suffix = rng.choice('abcdefgh')
+    names = [n + suffix for n in ('id', 'name', 'x', 'y', 'k', 'n')]
+    pair = Pair(u)
+    acc = []                       # accepted templates (ids)
+    seg_pool = []                  # segments used so far (ids), reused to make siblings and shared prefixes
+    evs, nontrivial = [], False
+    reps = ['', 'zzz', 'q']
+
+    def new_template():
+        tp = []
+        if acc and rng.random() < 0.65:
+            base = rng.choice(acc)
+            tp = list(base[:rng.randint(0, len(base))])
+        n = rng.randint(1, 2) if tp else rng.randint(1, maxdepth)
+        while len(tp) < maxdepth and n > 0:
+            if seg_pool and rng.random() < 0.3:
+                sid = rng.choice(seg_pool)
+            else:
+                sid = u.add(random_segment(rng, names))
+            tp.append(sid)
+            n -= 1
+        while len(tp) > 1 and not u.ts[tp[0] - 1]['items']:      # normal form: no leading empty segment
+            tp.pop(0)
+        return tp
+
+    def new_path():
+        t = rng.random()
+        if acc and t < 0.75:
+            tp = rng.choice(acc)
+            segs = []
+            for sid in tp:
+                s = u.ts[sid - 1]
+                if seg_kind(s) == 'var' and s['items'][0]['c']['k'] == 'path':
+                    segs += [rng.choice(reps) for _ in range(rng.randint(1, 3))]
+                else:
+                    segs.append(rng.choice(seg_reps(s, rng)) if rng.random() < 0.85 else rng.choice(reps))
+            m = rng.random()
+            if m < 0.12 and len(segs) > 1:
+                segs.pop()
+            elif m < 0.24:
+                segs.append(rng.choice(reps))
+            elif m < 0.34:
+                segs[rng.randrange(len(segs))] = rng.choice(reps)
+            elif m < 0.37:
+                segs.insert(0, '')
+        else:
+            segs = [rng.choice(reps) for _ in range(rng.randint(1, maxdepth + 1))]
+        return [s for s in segs]
+
+    finds_left = nfinds
+    for i in range(nadds):
+        tp = new_template()
+        for sid in tp:
+            if sid not in seg_pool:
+                seg_pool.append(sid)
+                for r_ in seg_reps(u.ts[sid - 1], rng):
+                    if r_ not in reps:
+                        reps.append(r_)
+        ev = pair.add(tp, i + 1, rng.random() < 0.3)
+        evs.append(ev)
+        if ev['out'] == 'ok':
+            acc.append(tp)
+        if ev['out'] != ev['sout'] or ev['out'] == 'exc':
+            break
+        k = min(finds_left, rng.choice((0, 0, 1, 3, 8)) if i < nadds - 1 else finds_left)
+        finds_left -= k
+        for _ in range(k):
+            segs = new_path()
+            for s in segs:
+                u.strings.add(s)
+            ev = pair.find(segs)
+            evs.append(ev)
+            if pair.after_reject or siblings_nontrivial(acc, ev['tmpl'] if ev['out'] == 'hit' else []):
+                nontrivial = True
+    return evs, {'nontrivial': nontrivial, 'templates': [u.template(e['t']) for e in evs if e['op'] == 'add']}
+
+
+# ------------------------------------------------------------------------------------------------
+
+def judge_traces(ctx, u, items, workers):
+    """items = [(events, info)]; writes the batch universe, lets TLC judge, reports."""
+    import os
+    upath = u.write(os.path.join(ctx.scratch, 'trace_universe.json'))
+    traces = [{'ev': [{k: v for k, v in e.items() if k != 'x'} for e in evs]} for evs, _ in items]
+    verdicts = ctx.judge('RouterTrace', traces, env={'ROUTER_UNIVERSE': upath}, workers=workers, timeout=1500,
+                         chunk=400)
+    for (evs, info), v in zip(items, verdicts):
+        if v == 'ok':
+            continue
+        clause, at = v.split('@')
+        at = int(at)
+        ev = evs[at - 1]
+        ops = []
+        for e in evs[:at]:
+            ops.append(['add', u.template(e['t']), e['t'], e['r'], e['c']] if e['op'] == 'add'
+                       else ['find', [''.join(s) for s in e['p']]])
+        used = sorted({sid for e in evs[:at] if e['op'] == 'add' for sid in e['t']})
+        case = {'origin': info.get('origin', 'random-table'), 'ops': ops, 'segs': {str(i): u.ts[i - 1] for i in used},
+                'failing_event': {k: ev[k] for k in ('op', 'out', 'sout', 'res', 'tmpl', 'params', 'x')}}
+        what = 'trace rejected by RouterTrace at event %d (%s): %s' % (
+            at, ops[-1][:2], {k: ev[k] for k in ('out', 'res', 'tmpl', 'params', 'sout', 'x')})
+        if clause.startswith('D:'):
+            ctx.detail(clause, case, what)
+        else:
+            rejected = [e['t'] for e in evs[:at] if e['op'] == 'add' and e['out'] != 'ok']
+            ctx.violation(clause, case, what,
+                          signature=f1_signature(rejected, u) if clause == 'P:reject-noop' else None)
+
+
+def run(ctx):
+    import os
+    ctx.rule = ('case = one add_route/find history on a fresh CompiledRouter (decision-table histories, simulated '
+                'histories, random route tables); non-trivial iff some lookup of the history had >= 2 sibling nodes to '
+                'choose from at a level of the template tree it walked, or was made after a rejected add; distinct by '
+                'hash of the history')
+    ctx.trusted_base = ['TLC evaluation of spec/SegMatch.tla + spec/Router.tla',
+                        "CPython int()/float()/uuid.UUID()/datetime.strptime() (converter table CT) and str() of values",
+                        'a second real CompiledRouter fed only the accepted adds (tells "rejected add was not a no-op" '
+                        'from "acceptance rules differ")']
+    ctx.assumptions = ['templates/paths are given as segment sequences; text = "/" + "/".join(segments); templates in '
+                       'normal form (no leading empty segment: the router strips leading slashes)',
+                       'path segments contain no newline, backslash or braces',
+                       'field names, converter names and white space decide validity as in the code (D-clause)',
+                       'resources expose on_get only; suffix/method-map handling of add_route is not exercised']
+    W = 4 if ctx.quick else 8
+
+    # ---- leg M: the design, exhaustively --------------------------------------------------------
+    u, ps = mc_universe(False)
+    upath = u.write(os.path.join(ctx.scratch, 'mc_universe.json'), ps)
+    env = {'ROUTER_UNIVERSE': upath}
+    r = ctx.tlc('MC_Router', 'MC_Router.cfg', coverage=True, env=env, workers=W, timeout=1500)
+    ctx.require_coverage(r, ['XAccept', 'XRejectInvalid', 'XRejectConflict', 'XRejectPathNotLast', 'XFind'])
+    tables = load_tables(r.json)
+    if not tables:
+        raise MachineryError('MC_Router printed no decision table')
+    ctx.extra['decision_table_states'] = len(tables)
+    ctx.progress('leg M: %d states, %d table states' % (r.distinct, len(tables)))
+    if not ctx.quick:
+        r3 = ctx.tlc('MC_Router', 'MC_RouterT.cfg', coverage=True, env=env, workers=W, timeout=3000)
+        ctx.require_coverage(r3, ['XAccept', 'XRejectInvalid', 'XRejectConflict', 'XRejectPathNotLast', 'XFind'])
+        ctx.progress('leg M (3 adds): %d states' % r3.distinct)
+    # vacuity: each wrong-design switch must break its invariant
+    for cfg, inv in (('MC_RouterBadRollback.cfg', 'RejectIsNoOp'), ('MC_RouterBadReset.cfg', 'FindIsIdealDFS')):
+        rb = ctx.tlc('MC_Router', cfg, env=env, workers=4, timeout=600, must_hold=False, count=False)
+        if rb.violated != inv:
+            raise MachineryError('vacuous model: %s did not violate %s (got %r)' % (cfg, inv, rb.violated))
+    ctx.extra['wrong_design_switches'] = {'Rollback=FALSE': 'RejectIsNoOp violated', 'ResetOnAdd=FALSE': 'FindIsIdealDFS violated'}
+    ctx.progress('vacuity runs done')
+
+    # ---- leg A1: the decision table replayed: every history of <= 2 adds, complete lookup tables ----
+    rp = Replayer(ctx, u)
+    rng = ctx.rng
+    tps = all_templates(u, 2)
+    moves = [(tp, c) for tp in tps for c in (False, True)]
+    P2, P3 = all_paths(ps, 2), all_paths(ps, 3)
+    P3only = P3[len(P2):]
+    nsample = ctx.pick(30, 140)
+    n = 0
+    for m1 in moves:
+        for m2 in moves:
+            n += 1
+            final = P2 + rng.sample(P3only, nsample)
+            mid = rng.sample(P2, 5) if n % 2 else []
+            replay_history(rp, u, tables, [m1, m2], final, mid, 'decision-table')
+    if not ctx.quick:         # longer histories: the table covers the states with <= 2 accepted adds
+        for _ in range(30000):
+            hist = [rng.choice(moves) for _ in range(rng.randint(3, 5))]
+            replay_history(rp, u, tables, hist, rng.sample(P3, 40), rng.sample(P2, 4), 'decision-table-long')
+    ctx.traces_validated += n
+    ctx.extra['decision_table_histories'] = n
+    ctx.extra['decision_table_lookups'] = rp.lookups
+    ctx.progress('leg A1: %d histories, %d lookups' % (n, rp.lookups))
+
+    # ---- leg A2: simulated add/find histories of a larger universe --------------------------------
+    us, pss = sim_universe()
+    uspath = us.write(os.path.join(ctx.scratch, 'sim_universe.json'), pss)
+    rs = ctx.tlc('MC_Router', 'MC_RouterSim.cfg', simulate={'num': ctx.pick(60, 1200)}, depth=12, seed=ctx.seed + 1,
+                 workers=4, env={'ROUTER_UNIVERSE': uspath}, timeout=1500, count=False)
+    behaviours = {digest(b): b for b in rs.json}
+    rps = Replayer(ctx, us)
+    for b in behaviours.values():
+        pair = Pair(us)
+        acc = []
+        nontrivial = False
+        case = {'origin': 'simulated', 'history': [[us.template(e['t']), e['c']] if e['op'] == 'add' else
+                                                   '/' + '/'.join(''.join(s) for s in e['p']) for e in b['h']]}
+        for e in b['h']:
+            if e['op'] == 'add':
+                if not rps.add(pair, e['t'], e['r'], e['c'], e['out'] == 'ok', case):
+                    break
+                if e['out'] == 'ok':
+                    acc.append(e['t'])
+            else:
+                want = {'out': e['out'], 'res': e['res'], 'tmpl': list(e['tmpl']), 'params': e['params']}
+                if pair.after_reject or siblings_nontrivial(acc, want['tmpl']):
+                    nontrivial = True
+                if not rps.find(pair, [''.join(s) for s in e['p']], want, case):
+                    break
+        ctx.case(case, nontrivial=nontrivial, key=digest(case['history']))
+    ctx.traces_validated += len(behaviours)
+    ctx.extra['simulated_behaviours_replayed'] = len(behaviours)
+    ctx.progress('leg A2: %d behaviours, %d lookups' % (len(behaviours), rps.lookups))
+
+    # ---- leg B: random route tables, judged by TLC ---------------------------------------------------
+    ub = Universe()
+    items, seen = [], set()
+    for i in range(ctx.pick(120, 2500)):
+        evs, info = random_trace(rng, ub, rng.randint(5, 40), 200)
+        k = digest([[e['op'], e['t'], e['c'], e['p']] for e in evs])
+        ctx.case({'origin': 'random-table', 'templates': info['templates'][:12]}, nontrivial=info['nontrivial'], key=k)
+        if k not in seen:
+            seen.add(k)
+            items.append((evs, info))
+    nev = sum(len(e) for e, _ in items)
+    ctx.progress('leg B: %d tables, %d events recorded, %d template segments' % (len(items), nev, len(ub.ts)))
+    judge_traces(ctx, ub, items, W)
+    ctx.extra['random_tables_judged'] = len(items)
+    ctx.extra['random_table_events'] = nev
+    ctx.progress('leg B judged')
+
+
+def replay(ctx, case):
+    """re-executes the recorded calls on a fresh router pair and lets TLC judge the trace"""
+    u = Universe()
+    remap = {}
+    for sid, s in sorted(case['segs'].items(), key=lambda kv: int(kv[0])):
+        remap[int(sid)] = u.add(s)
+    pair = Pair(u)
+    evs = []
+    for op in case['ops']:
+        if op[0] == 'add':
+            evs.append(pair.add([remap[i] for i in op[2]], op[3], op[4]))
+        else:
+            for s in op[1]:
+                u.strings.add(s)
+            evs.append(pair.find(op[1]))
+        print(op[:2], '->', {k: evs[-1][k] for k in ('out', 'res', 'params', 'sout', 'x')})
+    judge_traces(ctx, u, [(evs, {'origin': 'replay'})], 1)
